@@ -82,6 +82,7 @@ class StreamTask:
         self.inst = None
         self.dead = False
         self.rng_before = {}             # own sample index -> library RNG state (RNG consumers only)
+        self._bufs = None
         self.q_mutations = []            # own samples at which the a-priori quaternion argument was modified in place
         self.dt_eff = C.effective_dt(self.p, self.dt)
 
@@ -104,6 +105,19 @@ class StreamTask:
         g = h.gyr[k] if 'g' in self.kind.sensors else None
         a = h.acc[self.key][k] if 'a' in self.kind.sensors else None
         m = h.mag[self.key][k] if 'm' in self.kind.sensors else None
+        if self.spec.get('reuse_buffers'):
+            # an application that reads every sample into the same three preallocated buffers (driver style):
+            # the objects handed to the library are identical from call to call, their contents are not
+            if self._bufs is None:
+                self._bufs = [np.zeros(3), np.zeros(3), np.zeros(3)]
+            out = []
+            for buf, src in zip(self._bufs, (g, a, m)):
+                if src is None:
+                    out.append(None)
+                else:
+                    buf[:] = src
+                    out.append(buf)
+            return tuple(out)
         return g, a, m
 
     def step(self, log):
